@@ -31,6 +31,7 @@ def main():
     ap.add_argument("--seeds", default="0")
     ap.add_argument("--keep", action="store_true")
     a = ap.parse_args()
+    a.dir = os.path.abspath(a.dir)
     patch = os.path.join(a.dir, "patch.diff")
     demo = os.path.join(a.dir, "demo.py")
     tmp = tempfile.mkdtemp(prefix="seedwt_", dir=os.environ.get("TMPDIR", "/tmp"))
